@@ -38,6 +38,9 @@ def gen_cases(ctx, n=None):
 
             P0d = float((spec["P0"][0] * u.Unit(spec["P0"][1])).to_value(u.day))
             spec["theta"]["P"] = P0d / 2 ** (3 * int(rng.integers(2, 5)))
+        if spec["kprior"] == "default" and rng.random() < 0.35:
+            # FixedCompanionMass(mu=..): the K prior keeps its period- and eccentricity-dependent width but is centred away from zero
+            spec["K_mu"] = float(np.round(rng.normal(0, 2) * 64) / 64) * (1.0 if spec["sigma_K0"][1] == "km/s" else 1000.0) * spec["sigma_K0"][0] / 30.0
         # two more nonlinear rows for the layout part
         spec["extra_theta"] = [dict(P=float(np.round(rng.uniform(1, 300) * 64) / 64), e=float(np.round(rng.uniform(0, 0.8) * 256) / 256),
                                     omega=float(np.round(rng.uniform(0, 6) * 256) / 256), M0=float(np.round(rng.uniform(0, 6) * 256) / 256),
@@ -98,6 +101,13 @@ def run_post(spec):
     rec2 = RecGen(12)
     raw, ll = helper.batch_get_posterior_samples(np.ascontiguousarray(chunk), spec["nls"], rec2)
     out["raw"], out["raw_ll"], out["chunk"], out["mvn2"] = np.array(raw), np.array(ll), chunk, rec2.calls("mvn")
+    # the accepted sample as the LAST row of a batch, after the other rows (whose K-prior variance may be capped where its own is not,
+    # or the reverse): what the generator is handed for it must not depend on what the helper processed before
+    if spec["extra_theta"]:
+        rec3 = RecGen(14)
+        chunk_rev = np.ascontiguousarray(np.array([[t["P"], t["e"], t["omega"], t["M0"], t["s"]] for t in spec["extra_theta"] + [spec["theta"]]], dtype=float))
+        helper.batch_get_posterior_samples(chunk_rev, spec["nls"], rec3)
+        out["mvn_last"] = rec3.calls("mvn")
     # the same samples through the public unpack (units and names)
     unp = JokerSamples.unpack(np.array(raw), helper.internal_units, t_ref=helper.data.t_ref, poly_trend=prior.poly_trend, n_offsets=prior.n_offsets)
     out["unpacked"] = unp
@@ -126,6 +136,17 @@ def predicate(spec, out):
     elif np.asarray(meta["cov"]).shape != (nl, nl) or not np.all(np.abs(np.asarray(meta["cov"]) - A_cf) <= 1e-4 * np.outer(sd, sd)):
         errs.append(f"covariance handed to the generator is not A = (Lambda^-1 + M^T C_s^-1 M)^-1 (diag {np.diag(meta['cov'])} vs {np.diag(A_cf)}) "
                     f"[K prior {spec['kprior']}, P={spec['theta']['P']}, s={spec['theta']['s']}]")
+    ml = out.get("mvn_last")
+    if ml is not None:
+        if len(ml) != 1 + len(spec["extra_theta"]):
+            errs.append(f"batch of {1 + len(spec['extra_theta'])} rows: {len(ml)} multivariate_normal calls")
+        else:
+            m_l = ml[-1][0]
+            if (np.asarray(m_l["mean"]).shape != (nl,) or not np.all(np.abs(np.asarray(m_l["mean"]) - a_cf) <= 1e-4 * sd + 1e-9 * np.abs(a_cf))
+                    or np.asarray(m_l["cov"]).shape != (nl, nl) or not np.all(np.abs(np.asarray(m_l["cov"]) - A_cf) <= 1e-4 * np.outer(sd, sd))):
+                errs.append(f"as the last row of a batch (after rows with P = {[t['P'] for t in spec['extra_theta']]}) the sample's (mean, cov) handed to the generator "
+                            f"{np.asarray(m_l['mean'])} / diag {np.diag(np.asarray(m_l['cov']))} are not the conditional posterior a = {a_cf}, diag A = {np.diag(A_cf)} "
+                            f"[K prior {spec['kprior']}, P={spec['theta']['P']}, e={spec['theta']['e']}]")
     # the cache-file path hands the generator the same conditional posterior (and returns the sample's own nonlinear parameters)
     mf = out.get("mvn_file")
     if mf is not None:
